@@ -113,7 +113,7 @@ fn word_of(chunk: &[u8]) -> u128 {
 }
 
 /// Non-zero words (index, value) and word count of the image P || 0^q || R.
-fn expected_sparse(e: En, wbits: usize, p: &BitModel, q: u64, r: &BitModel) -> (u64, Vec<(u64, u128)>) {
+pub fn expected_sparse(e: En, wbits: usize, p: &BitModel, q: u64, r: &BitModel) -> (u64, Vec<(u64, u128)>) {
     let wbytes = wbits / 8;
     let mut out = Vec::new();
     let mut pm = p.clone();
@@ -147,7 +147,7 @@ fn expected_sparse(e: En, wbits: usize, p: &BitModel, q: u64, r: &BitModel) -> (
     (total, out)
 }
 
-fn tags(e: En, g: &Giant, op: &str) -> Vec<String> {
+pub fn tags(e: En, g: &Giant, op: &str) -> Vec<String> {
     vec![
         format!("e={:?}", e),
         format!("word={:?}", g.wword),
@@ -244,7 +244,7 @@ pub fn giant_write(pfx: &str, e: En, g: &Giant, ctx: &mut Ctx) {
 // ------------------------------------------------------------------ C02 / C03
 
 /// Image split for the sparse reader: (bytes of head words ++ tail words, head words, zero words).
-fn sparse_stream(e: En, rbits: usize, p: &BitModel, q: u64, r: &BitModel) -> (Vec<u8>, usize, u64) {
+pub fn sparse_stream(e: En, rbits: usize, p: &BitModel, q: u64, r: &BitModel) -> (Vec<u8>, usize, u64) {
     let mut head = p.clone();
     let hz = (rbits - head.len() % rbits) % rbits; // zeros that complete the last head word
     let hz = (hz as u64).min(q) as usize;
